@@ -81,6 +81,9 @@ func init() {
 			return v
 		},
 		"verifChoose": func(fr *frame, a []value) value { return fr.i.w.choose(a[0].(string), a[1].(int)) },
+		// verifMapOrderSet(desc): every map iteration of the rest of the path runs in descending key order
+		// (Go leaves the order unspecified; ascending is the engine's default)
+		"verifMapOrderSet": func(fr *frame, a []value) value { fr.i.w.mapDesc = a[0].(bool); return nil },
 		"verifAssume": func(fr *frame, a []value) value { fr.i.w.assume(a[0]); return nil },
 		"verifAssert": func(fr *frame, a []value) value {
 			fr.i.w.assertV(a[0], a[1].(string), fr)
